@@ -692,10 +692,13 @@ impl VirtualFileSystem for Memfs {
     /// ```
     fn all_dirs<T: AsRef<Path>>(&self, path: T) -> RvResult<Vec<PathBuf>> {
         let mut paths: Vec<PathBuf> = vec![];
-        if !self.is_dir(&path) {
+        let guard = self.read_guard();
+        if !self._is_dir(&guard, &path) {
             return Err(PathError::is_not_dir(&path).into());
         }
-        for entry in self.entries(path)?.min_depth(1).sort_by_name().dirs() {
+        let entries = self._entries(&guard, path)?;
+        drop(guard);
+        for entry in entries.min_depth(1).sort_by_name().dirs() {
             let entry = entry?;
             paths.push(entry.path_buf());
         }
@@ -725,10 +728,13 @@ impl VirtualFileSystem for Memfs {
     /// ```
     fn all_files<T: AsRef<Path>>(&self, path: T) -> RvResult<Vec<PathBuf>> {
         let mut paths: Vec<PathBuf> = vec![];
-        if !self.is_dir(&path) {
+        let guard = self.read_guard();
+        if !self._is_dir(&guard, &path) {
             return Err(PathError::is_not_dir(&path).into());
         }
-        for entry in self.entries(path)?.min_depth(1).sort_by_name().files() {
+        let entries = self._entries(&guard, path)?;
+        drop(guard);
+        for entry in entries.min_depth(1).sort_by_name().files() {
             let entry = entry?;
             paths.push(entry.path_buf());
         }
@@ -760,10 +766,13 @@ impl VirtualFileSystem for Memfs {
     /// ```
     fn all_paths<T: AsRef<Path>>(&self, path: T) -> RvResult<Vec<PathBuf>> {
         let mut paths: Vec<PathBuf> = vec![];
-        if !self.is_dir(&path) {
+        let guard = self.read_guard();
+        if !self._is_dir(&guard, &path) {
             return Err(PathError::is_not_dir(&path).into());
         }
-        for entry in self.entries(path)?.min_depth(1).sort_by_name() {
+        let entries = self._entries(&guard, path)?;
+        drop(guard);
+        for entry in entries.min_depth(1).sort_by_name() {
             let entry = entry?;
             paths.push(entry.path_buf());
         }
@@ -1176,10 +1185,13 @@ impl VirtualFileSystem for Memfs {
     /// ```
     fn dirs<T: AsRef<Path>>(&self, path: T) -> RvResult<Vec<PathBuf>> {
         let mut paths: Vec<PathBuf> = vec![];
-        if !self.is_dir(&path) {
+        let guard = self.read_guard();
+        if !self._is_dir(&guard, &path) {
             return Err(PathError::is_not_dir(&path).into());
         }
-        for entry in self.entries(path)?.min_depth(1).max_depth(1).sort_by_name().dirs() {
+        let entries = self._entries(&guard, path)?;
+        drop(guard);
+        for entry in entries.min_depth(1).max_depth(1).sort_by_name().dirs() {
             let entry = entry?;
             paths.push(entry.path_buf());
         }
@@ -1271,10 +1283,13 @@ impl VirtualFileSystem for Memfs {
     /// ```
     fn files<T: AsRef<Path>>(&self, path: T) -> RvResult<Vec<PathBuf>> {
         let mut paths: Vec<PathBuf> = vec![];
-        if !self.is_dir(&path) {
+        let guard = self.read_guard();
+        if !self._is_dir(&guard, &path) {
             return Err(PathError::is_not_dir(&path).into());
         }
-        for entry in self.entries(path)?.min_depth(1).max_depth(1).sort_by_name().files() {
+        let entries = self._entries(&guard, path)?;
+        drop(guard);
+        for entry in entries.min_depth(1).max_depth(1).sort_by_name().files() {
             let entry = entry?;
             paths.push(entry.path_buf());
         }
@@ -1747,10 +1762,13 @@ impl VirtualFileSystem for Memfs {
     /// ```
     fn paths<T: AsRef<Path>>(&self, path: T) -> RvResult<Vec<PathBuf>> {
         let mut paths: Vec<PathBuf> = vec![];
-        if !self.is_dir(&path) {
+        let guard = self.read_guard();
+        if !self._is_dir(&guard, &path) {
             return Err(PathError::is_not_dir(&path).into());
         }
-        for entry in self.entries(path)?.min_depth(1).max_depth(1).sort_by_name() {
+        let entries = self._entries(&guard, path)?;
+        drop(guard);
+        for entry in entries.min_depth(1).max_depth(1).sort_by_name() {
             let entry = entry?;
             paths.push(entry.path_buf());
         }
